@@ -4,7 +4,7 @@ import numpy as np
 import support as S
 import t01
 
-RULE = ("priors poly_trend in {1,2} x n_offsets in {0,1} x jitter {0, sampled} x units {day,km/s | yr,m/s}: the compiled model_rv at 3 parameter points "
+RULE = ("priors poly_trend in {1,2} x n_offsets in {0,1} (incl. both at once) x explicit reference epoch x jitter {0, sampled} x units {day,km/s | yr,m/s}: the compiled model_rv at 3 parameter points "
         "equals M(theta) x (independent design matrix, twobody Kepler solver); the ln_likelihood deterministic equals sum ln N(y | model, sigma^2 + s^2); "
         "mcmc_init is the chosen sample (the median-period sample of several) in the prior's units; non-trivial = every case")
 EXHAUSTIVE = False
@@ -27,6 +27,16 @@ def cases(tier, seed):
                     continue
                 yield f"{pt_}/{no}/{s}/{Pu}/{vu}", {"pt": pt_, "no": no, "customK": False, "s": s, "Pu": Pu, "vu": vu, "seed": int(seed) + 5,
                                                    "layout": "single" if no == 0 else "disjoint"}
+
+
+    # both kinds of extra linear column at once (their order matters), and a reference epoch that is not the first observation
+    yield "2/1/None/day/km/s", {"pt": 2, "no": 1, "customK": False, "s": None, "Pu": "day", "vu": "km/s", "seed": int(seed) + 5, "layout": "disjoint"}
+    yield "2/0/None/day/km/s/tref", {"pt": 2, "no": 0, "customK": False, "s": None, "Pu": "day", "vu": "km/s", "seed": int(seed) + 5,
+                                     "layout": "single-tref+30"}
+
+
+def priority(inp):
+    return 0 if (inp["pt"] == 2 and inp["no"] == 1) or inp["layout"] != "single" and inp["no"] == 0 else 1
 
 
 def nontrivial(inp):
